@@ -73,31 +73,54 @@ type Case struct {
 	Holder    string    `json:"holder_proto"`       // SIGTERM only: protocol of one more request that the upstream holds across the signal until every listener refuses connects
 }
 
-func sizeGen(min int) *rapid.Generator[int] {
-	return rapid.OneOf(rapid.IntRange(min, 64), rapid.IntRange(min, 4096), rapid.SampledFrom([]int{min, 255, 256, 1023, 1024, 4095, 4096, 8192, 16384, 40000}))
-}
+var sizeBoundaries = []int{2, 255, 256, 1023, 1024, 4095, 4096, 8192, 16384, 40000}
 
+// genCase draws one case. rapid biases integer draws towards small values, and with a handful of cases per
+// shard that would make most cases alike; so 64 unbiased coin flips (rapid.Bool) are drawn and expanded.
+// The two signal families run from the same shard seed: the family name is mixed in so they do not mirror each other.
 func genCase(rt *rapid.T, signal string) Case {
-	c := Case{Signal: signal}
-	// both families run from the same shard seed: rotate the SIGHUP draws so the two do not mirror each other
-	rot := 0
-	if signal == "SIGHUP" {
-		rot = 1
+	var u uint64
+	for i := 0; i < 64; i++ {
+		u <<= 1
+		if rapid.Bool().Draw(rt, "bit") {
+			u |= 1
+		}
 	}
-	c.Proto = protos[(rapid.IntRange(0, 2).Draw(rt, "proto")+rot)%3]
-	c.Phase = phases[(rapid.IntRange(0, 4).Draw(rt, "phase")+2*rot)%5]
-	c.KeepAlive = rapid.Bool().Draw(rt, "keepalive")
-	c.Warm = rapid.IntRange(0, 3).Draw(rt, "warm")
-	c.ExtraMs = rapid.IntRange(0, 20).Draw(rt, "extraMs")
-	c.PostMs = rapid.OneOf(rapid.IntRange(0, 50), rapid.IntRange(0, 300)).Draw(rt, "postMs")
-	c.DReq = sizeGen(2).Draw(rt, "dreq")
-	c.DResp = sizeGen(2).Draw(rt, "dresp")
-	c.Seed = rapid.Uint64().Draw(rt, "seed")
+	rnd := xs(splitmix(u ^ seedOf(signal)))
+	c := Case{Signal: signal}
+	c.Proto = protos[rnd.n(3)]
+	c.Phase = phases[rnd.n(5)]
+	c.KeepAlive = rnd.n(2) == 1
+	c.Warm = rnd.n(4)
+	c.ExtraMs = rnd.n(21)
+	if rnd.n(2) == 0 {
+		c.PostMs = rnd.n(51)
+	} else {
+		c.PostMs = rnd.n(301)
+	}
+	size := func() int {
+		switch rnd.n(3) {
+		case 0:
+			return 2 + rnd.n(63)
+		case 1:
+			return 2 + rnd.n(4095)
+		}
+		return sizeBoundaries[rnd.n(len(sizeBoundaries))]
+	}
+	c.DReq, c.DResp = size(), size()
+	c.Seed = rnd.next()
 	if signal == "SIGTERM" {
-		c.Quiet = rapid.Bool().Draw(rt, "quiet")
-		c.Holder = rapid.SampledFrom(protos).Draw(rt, "holder")
+		c.Quiet = rnd.n(2) == 1
+		c.Holder = protos[rnd.n(3)]
 	}
 	return c
+}
+
+func splitmix(x uint64) uint64 {
+	x += 0x9e3779b97f4a7c15
+	x = (x ^ (x >> 30)) * 0xbf58476d1ce4e5b9
+	x = (x ^ (x >> 27)) * 0x94d049bb133111eb
+	return (x ^ (x >> 31)) | 1
 }
 
 // xs is the deterministic expander of a drawn seed (sizes / delays of the background requests).
@@ -294,7 +317,11 @@ func (r *run) client(id int) {
 			conn.close()
 			conn = nil
 		}
-		if think := rnd.n(12); think > 0 {
+		think := rnd.n(12)
+		if !ka {
+			think += 6 // fewer connections per second from the short-lived clients (the machine is shared)
+		}
+		if think > 0 {
 			select {
 			case <-r.stop:
 			case <-time.After(time.Duration(think) * time.Millisecond):
@@ -360,13 +387,13 @@ func (r *run) prober() {
 		if err != nil {
 			pr.Kind = classifyDial(err)
 		} else {
-			_ = c.Close()
+			rstClose(c)
 		}
 		r.recordProbe(pr)
 		n++
 		select {
 		case <-r.stop:
-		case <-time.After(4 * time.Millisecond):
+		case <-time.After(8 * time.Millisecond):
 		}
 	}
 }
@@ -474,7 +501,7 @@ func (r *run) start(base string) error {
 			up := 0
 			for _, proto := range protos {
 				if c, err := net.DialTimeout("tcp", r.addrs[proto], time.Second); err == nil {
-					_ = c.Close()
+					rstClose(c)
 					up++
 				}
 			}
